@@ -104,7 +104,7 @@ fn pick_next(g: &mut Global, me: u32) -> Next {
             .iter()
             .enumerate()
             .filter(|(_, t)| enabled_of(g, &s, t))
-            .map(|(i, _)| Opt { ent: i as u32, class: 0 })
+            .map(|(i, _)| Opt { ent: i as u32, class: 0, key: 0 })
             .collect();
         if enabled.is_empty() {
             let unfinished = s.threads.iter().any(|t| !matches!(t.status, ThStatus::Finished | ThStatus::Draining));
